@@ -67,8 +67,9 @@ DATETIME_TAGS = {"datetime", "date", "time", "timedelta"}
 
 
 class Analyzer(object):
-    def __init__(self, prog, seeds=None, suppress=None, user_callables=()):
+    def __init__(self, prog, seeds=None, suppress=None, user_callables=(), ctor_overflow=True):
         self.prog = prog
+        self.ctor_overflow = ctor_overflow      # False: numeric fields are known to be short (<= 4 digits)
         self.param_types = {}       # (func qualname, param) -> type set
         self.seeds = seeds or {}
         for (q, p), t in self.seeds.items():
@@ -174,6 +175,79 @@ class Analyzer(object):
                 self._at = saved
         self.def_types[key] = res
         return res
+
+    def seq_len_at(self, f, name, node, depth=0):
+        """Lower bound on the length of the list/tuple bound to `name` at `node` (None if unknown)."""
+        if node is None or depth > 4:
+            return None
+        cfg, facts, rd, idx = self.flow(f)
+        defs = rd.at(node, name)
+        if not defs:
+            return None
+        lens = []
+        for d in defs:
+            if d == 0:
+                return None
+            n = cfg.nodes[d]
+            a = n.ast
+            L = None
+            if n.kind == "stmt" and isinstance(a, ast.Assign):
+                for t in a.targets:
+                    if isinstance(t, ast.Name) and t.id == name:
+                        L = self.expr_len(f, a.value, n, depth)
+                    elif isinstance(t, (ast.Tuple, ast.List)):
+                        for i, e_ in enumerate(t.elts):
+                            if isinstance(e_, ast.Name) and e_.id == name and isinstance(a.value, ast.Call):
+                                L = self.ret_elem_len(f, a.value, i, len(t.elts), depth)
+            elif n.kind == "stmt" and isinstance(a, ast.AugAssign) and isinstance(a.op, ast.Add) and isinstance(a.target, ast.Name):
+                base = self.seq_len_at(f, name, n, depth + 1)
+                add = self.expr_len(f, a.value, n, depth)
+                if base is not None:
+                    L = base + (add or 0)
+            if L is None:
+                return None
+            lens.append(L)
+        return min(lens) if lens else None
+
+    def expr_len(self, f, e, node, depth=0):
+        if isinstance(e, (ast.List, ast.Tuple)) and not any(isinstance(x, ast.Starred) for x in e.elts):
+            return len(e.elts)
+        if isinstance(e, ast.Name):
+            return self.seq_len_at(f, e.id, node, depth + 1)
+        if isinstance(e, ast.BinOp) and isinstance(e.op, ast.Add):
+            a, b = self.expr_len(f, e.left, node, depth), self.expr_len(f, e.right, node, depth)
+            return a + b if a is not None and b is not None else None
+        if isinstance(e, ast.Call):
+            callee = self.resolve_call(e, f)
+            if callee and all(isinstance(c, FuncInfo) for c in callee):
+                ls = []
+                for c in callee:
+                    for r in [x for x in walk_local(c.node) if isinstance(x, ast.Return)]:
+                        L = self.expr_len(c, r.value, self.node_of(c, r), depth + 1) if r.value is not None else None
+                        if L is None:
+                            return None
+                        ls.append(L)
+                return min(ls) if ls else None
+        return None
+
+    def ret_elem_len(self, f, call, i, n, depth):
+        callee = self.resolve_call(call, f)
+        if not callee or not all(isinstance(c, FuncInfo) for c in callee):
+            return None
+        ls = []
+        for c in callee:
+            for r in [x for x in walk_local(c.node) if isinstance(x, ast.Return)]:
+                v = r.value
+                if isinstance(v, ast.Call):
+                    L = self.ret_elem_len(c, v, i, n, depth + 1)
+                elif isinstance(v, ast.Tuple) and len(v.elts) == n:
+                    L = self.expr_len(c, v.elts[i], self.node_of(c, r), depth + 1)
+                else:
+                    L = None
+                if L is None:
+                    return None
+                ls.append(L)
+        return min(ls) if ls else None
 
     def param_type(self, f, p):
         q = f.qualname
@@ -920,6 +994,8 @@ class Walker(object):
         if isinstance(st, ast.If):
             if self.always_falsy(st.test):
                 return self.block(st.orelse)
+            if self.isinstance_text(st.test):
+                return self.expr(st.test) + self.block(st.body)
             return self.expr(st.test) + self.block(st.body) + self.block(st.orelse)
         if isinstance(st, ast.While):
             return self.expr(st.test) + self.block(st.body) + self.block(st.orelse)
@@ -948,6 +1024,14 @@ class Walker(object):
                     out += self.subscript(t)
             return out
         return []
+
+    def isinstance_text(self, test):
+        """`isinstance(x, text_type)` where x is known to be exactly text."""
+        if isinstance(test, ast.Call) and src(test.func) == "isinstance" and len(test.args) == 2 and \
+                src(test.args[1]) in ("text_type", "six.text_type", "str", "string_types", "six.string_types"):
+            t = self.an.type_expr(test.args[0], self.f)
+            return bool(t) and t <= {"str"}
+        return False
 
     def always_falsy(self, test):
         """`if p:` / `if p and q:` where some operand is a parameter that only ever holds its None default."""
@@ -1013,7 +1097,7 @@ class Walker(object):
         elif isinstance(t, ast.Subscript):
             bt = self.an.type_expr(t.value, self.f)
             out += self.expr(t.value) + self.expr(t.slice) if not isinstance(t.slice, ast.Slice) else []
-            if bt & {"list"} and not isinstance(t.slice, ast.Slice):
+            if bt & {"list"} and not isinstance(t.slice, ast.Slice) and not self.index_in_known_length(t) and not self.guarded_index(t):
                 out += self.prim("IndexError", t, "list item assignment")
         elif isinstance(t, ast.Attribute):
             pass
@@ -1128,11 +1212,71 @@ class Walker(object):
                 out += self.expr(c)
         return out
 
+    def const_index(self, idx):
+        if isinstance(idx, ast.Constant) and isinstance(idx.value, int) and not isinstance(idx.value, bool):
+            return idx.value
+        if isinstance(idx, ast.UnaryOp) and isinstance(idx.op, ast.USub) and isinstance(idx.operand, ast.Constant) and isinstance(idx.operand.value, int):
+            return -idx.operand.value
+        return None
+
+    def guarded_index(self, e):
+        """Relational idioms that make X[...] safe, read off the must-hold facts / short-circuit guards."""
+        base = src(e.value)
+        k = self.const_index(e.slice)
+        fs = set(self.facts_at(e))
+        n = self.an.node_of(self.f, e)
+        if n is not None and n.ast is not None:
+            for top in ast.walk(n.ast):
+                if isinstance(top, (ast.BoolOp, ast.IfExp)):
+                    fs |= set(expr_guards(top, e))
+        if k in (0, -1) and (base, True) in fs:
+            return True                     # non-empty sequence
+        if k is not None and k >= 0:
+            for t, tv in fs:
+                tt = t.replace(" ", "")
+                if tv and tt == "len(%s)==%d" % (base, k + 1) or (not tv) and tt == "len(%s)!=%d" % (base, k + 1):
+                    return True
+                if tv and tt in ("len(%s)>%d" % (base, k), "len(%s)>=%d" % (base, k + 1)):
+                    return True
+        if isinstance(e.slice, ast.Name):
+            i = e.slice.id
+            if ("%s < len(%s)" % (i, base), True) in fs or ("len(%s) > %s" % (base, i), True) in fs:
+                return True
+            if n is not None:
+                cfg, facts, rd, ix = self.an.flow(self.f)
+                defs = rd.at(n, i)
+                if defs and all(d and cfg.nodes[d].kind == "for" and src(cfg.nodes[d].ast.iter).replace(" ", "") == "range(len(%s))" % base for d in defs):
+                    return True
+            for t, tv in fs:
+                if tv and t.replace(" ", "").startswith("%s<len(%s)and" % (i, base)):
+                    return True
+        if isinstance(e.slice, ast.BinOp) and isinstance(e.slice.op, ast.Sub) and isinstance(e.slice.left, ast.Name) \
+                and isinstance(e.slice.right, ast.Constant) and e.slice.right.value == 1:
+            i = e.slice.left.id
+            if ("%s > 0" % i, True) in fs and (("%s < len(%s)" % (i, base), True) in fs or True):
+                return ("%s > 0" % i, True) in fs
+        # Y = X.split(sep) ... Y[1] under `sep in X`
+        if k == 1 and isinstance(e.value, ast.Name) and n is not None:
+            cfg, facts, rd, ix = self.an.flow(self.f)
+            for d in rd.at(n, e.value.id):
+                if not d:
+                    return False
+                a = cfg.nodes[d].ast
+                if not (isinstance(a, ast.Assign) and isinstance(a.value, ast.Call) and isinstance(a.value.func, ast.Attribute)
+                        and a.value.func.attr == "split" and len(a.value.args) == 1):
+                    return False
+                if ("%s in %s" % (src(a.value.args[0]), src(a.value.func.value)), True) not in fs:
+                    return False
+            return True
+        return False
+
     def subscript(self, e):
         if not isinstance(e.ctx, (ast.Load, ast.Del)) and not isinstance(e.ctx, ast.Load):
             return []
         bt = self.an.type_expr(e.value, self.f)
         idx = e.slice
+        if self.guarded_index(e):
+            return []
         # literal tuple/list/dict indexed by a comparison or an in-range constant
         if isinstance(e.value, (ast.Tuple, ast.List)):
             if isinstance(idx, ast.Compare) or (isinstance(idx, ast.Constant) and isinstance(idx.value, int) and -len(e.value.elts) <= idx.value < len(e.value.elts)):
@@ -1142,9 +1286,9 @@ class Walker(object):
         if isinstance(e.value, ast.Call) and src(e.value.func).endswith((".timetuple", ".isocalendar")) and isinstance(idx, ast.Constant):
             return []
         if isinstance(e.value, ast.Call) and isinstance(e.value.func, ast.Attribute) and e.value.func.attr in ("split", "rsplit", "splitlines") \
-                and isinstance(idx, ast.Constant) and idx.value in (0, -1):
+                and self.const_index(idx) in (0, -1):
             return []       # split() never returns an empty list
-        if isinstance(e.value, ast.Name) and isinstance(idx, ast.Constant) and idx.value in (0, -1) and self.an._at is not None:
+        if isinstance(e.value, ast.Name) and self.const_index(idx) in (0, -1) and self.an._at is not None:
             # name defined only from a split() call
             cfg, facts, rd, ix = self.an.flow(self.f)
             n = ix.get(id(e)) or self.an._at[1]
@@ -1154,6 +1298,8 @@ class Walker(object):
                 return []
         # d[k] where k iterates over d (dict comprehension / loop over the same dict)
         if self.key_from_same_dict(e):
+            return []
+        if self.index_in_known_length(e):
             return []
         out = []
         if bt & {"list", "tuple", "str", "bytes"}:
@@ -1174,6 +1320,47 @@ class Walker(object):
             out += self.prim("IndexError", e, "subscript of untyped value (assumed sequence)")
             self.an.unresolved.setdefault("untyped subscript", []).append("%s: %s" % (self.f.qualname, src(e)))
         return out
+
+    def index_in_known_length(self, e):
+        """X[k] where X is a local list/tuple of statically known minimum length and k is provably inside it."""
+        if not isinstance(e.value, ast.Name):
+            return False
+        n = self.an.node_of(self.f, e) or (self.an._at[1] if self.an._at and self.an._at[0] is self.f else None)
+        if n is None:
+            return False
+        # `len(X) > k and X[k] ...` in the same expression
+        if isinstance(e.slice, ast.Constant) and isinstance(e.slice.value, int) and e.slice.value >= 0 and n.ast is not None:
+            for top in ast.walk(n.ast):
+                if isinstance(top, ast.BoolOp):
+                    g = expr_guards(top, e)
+                    if ("len(%s) > %d" % (e.value.id, e.slice.value), True) in g or ("len(%s) >= %d" % (e.value.id, e.slice.value + 1), True) in g:
+                        return True
+            fs = self.facts_at(e)
+            if ("len(%s) > %d" % (e.value.id, e.slice.value), True) in fs:
+                return True
+        L = self.an.seq_len_at(self.f, e.value.id, n)
+        if L is None:
+            return False
+        if isinstance(e.slice, ast.Constant) and isinstance(e.slice.value, int):
+            return -L <= e.slice.value < L
+        if isinstance(e.slice, ast.UnaryOp) and isinstance(e.slice.op, ast.USub) and isinstance(e.slice.operand, ast.Constant):
+            return e.slice.operand.value <= L
+        # variable index: ask the interval engine
+        try:
+            from .ivl import Interp, Val
+            key = ("ivl", self.f.qualname)
+            if key not in self.an.flows:
+                self.an.flows[key] = Interp(self.an.prog, self.f).run()
+            it = self.an.flows[key]
+            best = None
+            for m in it.cfg.live_nodes():
+                if m.ast is not None and m.id in it.IN and any(x is e for x in ast.walk(m.ast)):
+                    v = it.value_at(m, e.slice)
+                    ok = isinstance(v, Val) and not v.base and v.lo >= -L and v.hi < L
+                    best = ok if best is None else (best and ok)
+            return bool(best)
+        except Exception:
+            return False
 
     def key_from_same_dict(self, e):
         if not isinstance(e.slice, ast.Name):
@@ -1287,14 +1474,16 @@ class Walker(object):
             return out + self.prim("ValueError", e, "month/year out of range (IllegalMonthError is a ValueError)")
         if fn in ("datetime.datetime", "datetime", "datetime.date", "date", "datetime.time", "datetime.timedelta", "timedelta") or \
                 (fn == "time" and "datetime" in str(self.f.module.imports.get("time", ""))):
+            if "timedelta" in fn:
+                return out      # timedelta accepts +-999999999 days; its arguments here are field-sized
             out += self.prim("ValueError", e, "date/time field out of range")
-            if "timedelta" in fn or "date" in fn:
-                out += self.prim("OverflowError", e, "date/time value out of range")
+            if self.an.ctor_overflow:
+                out += self.prim("OverflowError", e, "date/time field too large for a C int")
             return out
         if fn in ("datetime.datetime.combine", "datetime.combine"):
             return out
         if fn in ("datetime.date.fromordinal", "datetime.datetime.fromordinal", "date.fromordinal"):
-            return out + self.prim("ValueError", e, "ordinal out of range") + self.prim("OverflowError", e, "ordinal out of range")
+            return out + self.prim("ValueError", e, "ordinal out of range") + (self.prim("OverflowError", e, "ordinal out of range") if self.an.ctor_overflow else [])
         if isinstance(e.func, ast.Attribute):
             bt = self.an.type_expr(e.func.value, self.f)
             m = e.func.attr
@@ -1436,3 +1625,30 @@ class Walker(object):
             out += [x.via(self.site) for x in self.an.summary(target)]
         # calling a generator function raises nothing by itself
         return [r for r in out] if not all(isinstance(c, FuncInfo) and c.is_generator for c in callee) else []
+
+
+def check_escape(ctx, rule, entry, allowed, seeds=None, suppress=None, user=(), explicit_ok=(), min_functions=1, label=None, ctor_overflow=True):
+    """One obligation per (exception, primitive site) escaping `entry`."""
+    an = Analyzer(ctx.prog, seeds=seeds or {}, suppress=suppress or {}, user_callables=user, ctor_overflow=ctor_overflow)
+    res = an.escapes(entry)
+    ctx.stat(rule + ".functions_reached", an.stats["functions"])
+    ctx.stat(rule + ".primitive_sites", an.stats["primitive_sites"])
+    ctx.floor(rule, an.stats["functions"], min_functions, "functions reachable from %s" % entry.qualname)
+    label = label or entry.qualname.split("dateutil.")[-1]
+    n = 0
+    for r in sorted(res, key=lambda r: r.key()):
+        q = r.site.split(" ")[-1]
+        ok = any(is_sub(r.exc, a) for a in allowed)
+        why = ""
+        if not ok and r.kind == "explicit" and (q, r.exc) in explicit_ok:
+            ok, why = True, "explicit raise accepted for this entry point"
+        n += 1
+        ctx.ob(rule, entry, "only %s escape %s" % ("/".join(allowed), label), ok,
+               construct="%s escapes %s from %s: %s" % (r.exc, label, ".".join(q.split(".")[-2:]), r.construct.split(" [")[0]),
+               detail=why if ok else "raised at %s (%s); call path %s" % (r.site, r.construct, " > ".join(c.split(".")[-1] for c in r.chain) or "(entry)"),
+               analysis="EXC effect analysis")
+    for q, c, exc, reason in sorted(set(an.used_suppressions)):
+        ctx.suppress(rule, "%s: %s (%s)" % (q, c, exc), reason)
+    if n == 0:
+        ctx.ob(rule, entry, "nothing at all can escape %s" % label, True, construct="no escaping exception from %s" % label, analysis="EXC effect analysis")
+    return an, res
